@@ -7,7 +7,49 @@ package service
 //@   field logger nullable
 //@   field cAddr nullable
 //@   field sname nullable
+//@   field ktprinc nullable
 
 //@ func (*service.Settings).Logger(s) (r)
 //@   pure
 //@   ensures r == s.logger
+
+//@ func (*service.Settings).MaxClockSkew(s) (r)
+//@   pure
+//@   ensures r == ite(s.maxClockSkew == 0, 300000000000, s.maxClockSkew)
+//@ func (*service.Settings).KeytabPrincipal(s) (r)
+//@   pure
+//@   ensures r == s.ktprinc
+//@ func (*service.Settings).ClientAddress(s) (r)
+//@   pure
+//@   ensures r == s.cAddr
+//@ func (*service.Settings).RequireHostAddr(s) (r)
+//@   pure
+//@   ensures r == s.requireHostAddr
+
+// Service-side verification of an AP-REQ (property C01): success implies every clause of the statement, and the
+// identity handed to the application is the one sealed in the ticket.
+//@ func service.VerifyAPREQ(APReq, s) (ok, creds, err)
+//@   ensures ok ==> err == nil && creds != nil
+//@   ensures ok ==> exists j int :: 0 <= j && j < len(s.Keytab.Entries)
+//@        && kmatch(s.Keytab.Entries[j], ite(s.ktprinc != nil, *s.ktprinc, APReq.Ticket.SName), APReq.Ticket.Realm, APReq.Ticket.EncPart.KVNO, APReq.Ticket.EncPart.EType)
+//@        && krb_dec_ok(s.Keytab.Entries[j].Key.KeyType, bytes(s.Keytab.Entries[j].Key.KeyValue), 2, bytes(APReq.Ticket.EncPart.Cipher))
+//@   ensures ok ==> !(APReq.Ticket.DecryptedEncPart.StartTime.Sub(now#1) > ite(s.maxClockSkew == 0, 300000000000, s.maxClockSkew))
+//@        && !((now#1).Sub(APReq.Ticket.DecryptedEncPart.EndTime) > ite(s.maxClockSkew == 0, 300000000000, s.maxClockSkew))
+//@   ensures ok ==> !flagset(APReq.Ticket.DecryptedEncPart.Flags, 7)
+//@   ensures ok ==> len(APReq.Ticket.DecryptedEncPart.CAddr) == 0 || addr_in(APReq.Ticket.DecryptedEncPart.CAddr, s.cAddr)
+//@   ensures ok && s.requireHostAddr ==> len(APReq.Ticket.DecryptedEncPart.CAddr) >= 1
+//@   ensures ok ==> krb_dec_ok(APReq.Ticket.DecryptedEncPart.Key.KeyType, bytes(APReq.Ticket.DecryptedEncPart.Key.KeyValue), auth_usage(APReq.Ticket.SName), bytes(APReq.EncryptedAuthenticator.Cipher))
+//@   ensures ok ==> names_equal(APReq.Authenticator.CName, APReq.Ticket.DecryptedEncPart.CName) && APReq.Authenticator.CRealm == APReq.Ticket.DecryptedEncPart.CRealm
+//@   ensures ok ==> !((now#2).Sub(APReq.Authenticator.CTime.Add(int64(APReq.Authenticator.Cusec) * 1000)) > ite(s.maxClockSkew == 0, 300000000000, s.maxClockSkew))
+//@        && !(APReq.Authenticator.CTime.Add(int64(APReq.Authenticator.Cusec) * 1000).Sub(now#2) > ite(s.maxClockSkew == 0, 300000000000, s.maxClockSkew))
+//@   ensures ok ==> names_equal(creds.cname, APReq.Ticket.DecryptedEncPart.CName) && creds.realm == APReq.Ticket.DecryptedEncPart.CRealm
+//@        && creds.validUntil == APReq.Ticket.DecryptedEncPart.EndTime && creds.authenticated
+
+// Replay cache as seen by VerifyAPREQ (its own contract is property C02): only the cache's own maps change.
+//@ func (*service.Cache).IsReplay(c, sname, a) (r)
+//@   modifies entries(c.entries)
+//@   trusted_frame the inner per-client maps are reached through map values; nothing outside the cache is written
+//@ func service.GetReplayCache(d) (c)
+//@   pure
+//@   trusted_frame process-wide singleton created under sync.Once
+//@   ensures c != nil
